@@ -70,11 +70,33 @@ func randSeq17(r *rand.Rand, n int) string {
 	return string(b)
 }
 
+func flatLines(sb *bytes.Buffer, s string, embl bool) {
+	for k := 0; k < len(s); k += 60 {
+		chunk := s[k:min(k+60, len(s))]
+		var parts []string
+		for j := 0; j < len(chunk); j += 10 {
+			parts = append(parts, chunk[j:min(j+10, len(chunk))])
+		}
+		if embl {
+			fmt.Fprintf(sb, "     %-66s%9d\n", strings.Join(parts, " "), min(k+60, len(s)))
+		} else {
+			fmt.Fprintf(sb, "%9d %s\n", k+1, strings.Join(parts, " "))
+		}
+	}
+	sb.WriteString("//\n")
+}
+
 func makeText(r *rand.Rand, format string, nrec, seqlen int) string {
 	var sb bytes.Buffer
 	for i := 0; i < nrec; i++ {
 		s := randSeq17(r, seqlen+r.Intn(20))
-		if format == "fastq" {
+		if format == "genbank" {
+			fmt.Fprintf(&sb, "LOCUS       G%06d %18d bp    DNA     linear   UNK 01-JAN-2020\nDEFINITION  entry %d.\nACCESSION   G%06d\nFEATURES             Location/Qualifiers\n     source          1..%d\n                     /organism=\"x\"\nORIGIN\n", i, len(s), i, i, len(s))
+			flatLines(&sb, s, false)
+		} else if format == "embl" {
+			fmt.Fprintf(&sb, "ID   E%06d; SV 1; linear; genomic DNA; STD; UNC; %d BP.\nXX\nDE   entry %d.\nXX\nFH   Key             Location/Qualifiers\nFT   source          1..%d\nFT                   /organism=\"x\"\nXX\nSQ   Sequence %d BP;\n", i, len(s), i, len(s), len(s))
+			flatLines(&sb, s, true)
+		} else if format == "fastq" {
 			q := make([]byte, len(s))
 			for j := range q {
 				q[j] = byte(33 + 2 + r.Intn(38))
@@ -162,6 +184,8 @@ func recordC17(env *Env) {
 	bases := []base{
 		{"small_fa", "fasta", makeText(r, "fasta", 30, 70), "small", 30},
 		{"small_fq", "fastq", makeText(r, "fastq", 25, 60), "small", 25},
+		{"small_gb", "genbank", makeText(r, "genbank", 12, 70), "small", 12},
+		{"small_embl", "embl", makeText(r, "embl", 12, 70), "small", 12},
 	}
 	if big == 1 {
 		bases = append(bases, base{"big_fa", "fasta", makeText(r, "fasta", 9000, 250), "big", 9000})
@@ -188,7 +212,7 @@ func recordC17(env *Env) {
 			codecs = append(codecs, "gzn", "gzm")
 		}
 		for _, codec := range codecs {
-			ext := map[string]string{"fasta": "fa", "fastq": "fq", "csv": "csv"}[b.format]
+			ext := map[string]string{"fasta": "fa", "fastq": "fq", "csv": "csv", "genbank": "gb", "embl": "dat"}[b.format]
 			cdata, err := compressWithRepo(dir, b.name+"."+ext+"."+codec, b.text)
 			if err != nil {
 				panic(fmt.Sprint("compress ", codec, ": ", err))
